@@ -13,6 +13,7 @@ type TraceOpts struct {
 	MinPool, MaxPool   int
 	Control            bool // Retract / Complete
 	Announce           bool // external change + Forget/Changed
+	AnnounceDense      bool // every rule reads the externally changed value and announces its change
 	Calls, Strs, Times bool
 	DistinctSal        bool // pairwise distinct saliences (unique run)
 	Faulty             bool // conditions / actions that may fail at run time
@@ -153,7 +154,7 @@ func GenTraceProgram(r *rand.Rand, o TraceOpts) *Program {
 		if o.ManyTrue && r.Intn(2) == 0 {
 			rule.When = Bin("||", TBool, rule.When, g.guard(pool, o))
 		}
-		if o.Announce && r.Intn(3) == 0 {
+		if o.Announce && (r.Intn(3) == 0 || o.AnnounceDense) {
 			var peek *Expr
 			if r.Intn(2) == 0 {
 				peek = CallE(tool(), "Peek", TInt, reflect.Int64)
@@ -182,7 +183,7 @@ func GenTraceProgram(r *rand.Rand, o TraceOpts) *Program {
 				rule.Then = append(rule.Then, g.AssignTo(v, depth-1))
 			}
 		}
-		if o.Announce && r.Intn(3) == 0 {
+		if o.Announce && (r.Intn(3) == 0 || o.AnnounceDense) {
 			if !o.Marks {
 				rule.Then = append(rule.Then, stmtBumpSeq())
 			}
